@@ -113,6 +113,19 @@ Proof.
   apply (roundtrip fl _ now'). now apply index_inv.
 Qed.
 
+(* Load onto an arbitrary cache state *)
+Theorem load_any fl defttl s (data : list (Z * entry)) now : Inv fl s -> NoDup (map fst data) ->
+  let s' := fst (mstep fl defttl s now (OLoad data)) in
+  Inv fl s' /\
+  forall k, m_get (member s') k = match m_get data k with
+                                  | Some (v, d) => if expired now d then m_get (member s) k else Some (v, d)
+                                  | None => m_get (member s) k
+                                  end.
+Proof.
+  intros HI Hnd. cbv zeta. simpl. split; [now apply Inv_load|].
+  intros k. rewrite member_load. now apply get_s_load_gen.
+Qed.
+
 Theorem f64r_round g : 0 < g ->
   (forall x y, x <= y -> f64r g x <= f64r g y) /\
   (forall x, - g <= 2 * (f64r g x - x) <= g) /\
@@ -124,7 +137,7 @@ Proof.
   - now apply f64r_nonneg.
 Qed.
 
-Theorem admissible_complete_f64r g defttl tr : 0 < g -> trace_wf tr ->
+Theorem admissible_complete_f64r g defttl tr : 0 < g ->
   (exists ts, within tr ts /\ spec_outputs (f64r g) defttl tr ts = observed tr) ->
   admissible_b g defttl tr = true.
 Proof.
